@@ -135,6 +135,64 @@ func evalGhash(args []string) string {
 	return hx(sm4.GHASH(h, a, c))
 }
 
+// GF(2^128) arithmetic of the harness itself (independent of the code under test), used to craft IVs
+// whose pre-counter block J0 has chosen low 32 bits (counter wrap-around cases).
+func gfMulH(x, y [16]byte) [16]byte {
+	var z [16]byte
+	v := x
+	for i := 0; i < 128; i++ {
+		if (y[i/8]>>(7-uint(i%8)))&1 == 1 {
+			for k := range z {
+				z[k] ^= v[k]
+			}
+		}
+		lsb := v[15] & 1
+		for k := 15; k > 0; k-- {
+			v[k] = v[k]>>1 | v[k-1]<<7
+		}
+		v[0] >>= 1
+		if lsb == 1 {
+			v[0] ^= 0xe1
+		}
+	}
+	return z
+}
+
+func gfInvH(h [16]byte) [16]byte {
+	// h^(2^128-2) by square and multiply
+	var one [16]byte
+	one[0] = 0x80
+	res := one
+	sq := h
+	// exponent bits: 2^128-2 = 111...110 (bit 0 clear)
+	for i := 0; i < 128; i++ {
+		if i > 0 {
+			res = gfMulH(res, sq)
+		}
+		sq = gfMulH(sq, sq)
+	}
+	return res
+}
+
+// craftIV16 returns a 16-byte IV for which J0 = GHASH_H(IV || [0]_64 || [128]_64) equals j0.
+func craftIV16(key []byte, j0 [16]byte) []byte {
+	blk, err := sm4.NewCipher(key)
+	if err != nil {
+		return nil
+	}
+	var h [16]byte
+	blk.Encrypt(h[:], make([]byte, 16))
+	hinv := gfInvH(h)
+	var lenb [16]byte
+	lenb[15] = 128
+	t := gfMulH(j0, hinv)
+	for k := range t {
+		t[k] ^= lenb[k]
+	}
+	iv := gfMulH(t, hinv)
+	return iv[:]
+}
+
 func (r *rng) gcmIV() []byte {
 	l := 12
 	switch r.intn(4) {
@@ -186,6 +244,18 @@ func genC12(r *rng, tier string, emit func(string)) {
 			key := r.block16()
 			iv := r.gcmIV()
 			emit(fmt.Sprintf("gcmenc %s %s %s %s", hx(key), hx(iv), hx(r.bytes(la)), hx(r.bytes(lp))))
+		}
+	}
+	// IVs crafted so that the 32-bit counter in J0 is about to carry into byte 12, 13, 14 or to wrap
+	for _, low := range []uint32{0x000000fe, 0x0000fffe, 0x00fffffe, 0xfffffffe, 0xffffffff, 0x00ffffff, 0x7ffffffe, 0xfffffffd} {
+		for rep := 0; rep < 2; rep++ {
+			key := r.block16()
+			var j0 [16]byte
+			copy(j0[:], r.bytes(12))
+			j0[12], j0[13], j0[14], j0[15] = byte(low>>24), byte(low>>16), byte(low>>8), byte(low)
+			if iv := craftIV16(key, j0); iv != nil {
+				emit(fmt.Sprintf("gcmenc %s %s %s %s", hx(key), hx(iv), hx(r.bytes(r.intn(20))), hx(r.bytes(40+r.intn(60)))))
+			}
 		}
 	}
 	// sampled larger sizes
